@@ -25,6 +25,7 @@ type Obligation struct {
 	Finding  *Finding // for canaries
 	NRegions int
 	Using    []string // labelled hypotheses this obligation uses (nil: all)
+	InLoop   string   // allocation base of the loop body the obligation was generated in ("" outside loops)
 }
 
 // Engine translates one function (plus what it inlines) into one Script.
@@ -73,6 +74,9 @@ type Engine struct {
 	pureMemo      map[string]Val
 	rootArgs      []Val
 	inInit        bool
+	trustedClauses []string // clauses of partly verified functions that are assumed, not proved
+	noPanicNoted  bool
+	calleeLogFlag string // while a callee's postconditions are evaluated: its "logged an error" flag
 	lastSortP     string // permutation array of the most recent sort call (ghost: vcSortPerm)
 	allocBase     string // loop allocation base of the block being executed ("" outside loops)
 	loopAllocN    map[string]int
@@ -174,6 +178,9 @@ func (e *Engine) warnOnce(msg string) {
 func (e *Engine) oblige(o *Obligation) {
 	if o.Goal == "true" && !o.Cover {
 		return
+	}
+	if o.InLoop == "" {
+		o.InLoop = e.sc.curLoop
 	}
 	e.oblCount[o.Name]++
 	if n := e.oblCount[o.Name]; n > 1 {
@@ -627,10 +634,12 @@ func (e *Engine) execBlock(fr *frame, b *ssa.BasicBlock, entryReach string, entr
 		reach, heap = e.enterLoop(fr, li, reach, heap, conds, idxs)
 	}
 	saveBase := e.allocBase
+	saveCur := e.sc.curLoop
 	if inner := e.innermost(fr, b); inner != nil && inner.base != "" {
 		e.allocBase = inner.base
+		e.sc.curLoop = inner.base
 	}
-	defer func() { e.allocBase = saveBase }()
+	defer func() { e.allocBase = saveBase; e.sc.curLoop = saveCur }()
 	for _, ins := range b.Instrs {
 		if phi, ok := ins.(*ssa.Phi); ok {
 			if li != nil {
